@@ -285,7 +285,7 @@ def public_view(h):
         html = h.getHTML()
     except ValueError:
         html = None
-    return ('parser', html, h.doctype, tuple(rows))
+    return ('parser', html, (h.doctype, getattr(h, 'encoding', None)), tuple(rows))
 
 
 def view_modulo_attr_order(v):
@@ -301,7 +301,7 @@ def first_diff(a, b):
     if a[1] != b[1]:
         return 'serialisation %r vs %r' % (a[1], b[1])
     if a[0] == 'parser' and a[2] != b[2]:
-        return 'doctype %r vs %r' % (a[2], b[2])
+        return 'doctype / encoding %r vs %r' % (a[2], b[2])
     ra, rb = a[-1], b[-1]
     if len(ra) != len(rb):
         return '%d vs %d elements' % (len(ra), len(rb))
@@ -419,7 +419,10 @@ def lookup_keys(d):
 def reuse_ok(p):
     try:
         p.parseStr('<i>z</i>')
-        return p.getHTML() == '<i >z</i>'
+        if p.getHTML() != '<i >z</i>':
+            return False
+        p.parseStr(b'<b>y</b>')          # bytes are decoded with the parser's own encoding
+        return p.getHTML() == '<b >y</b>'
     except Exception:
         return False
 
